@@ -65,23 +65,23 @@ impl ByteCompiler<'_> {
                 self.compile_switch(switch, use_expr);
             }
             Statement::Return(ret) => {
+                let return_value = self.return_value_register();
                 if let Some(expr) = ret.target() {
+                    let value = self.register_allocator.alloc();
+                    self.compile_expr(expr, &value);
                     if self.is_async_generator() {
-                        let value = self.register_allocator.alloc();
-                        self.compile_expr(expr, &value);
                         self.bytecode.emit_await(value.variable());
                         let resume_kind = self.register_allocator.alloc();
                         self.pop_into_register(&resume_kind);
                         self.pop_into_register(&value);
                         self.generator_next(&value, &resume_kind);
                         self.register_allocator.dealloc(resume_kind);
-                        self.push_from_register(&value);
-                        self.register_allocator.dealloc(value);
-                    } else {
-                        self.compile_expr_to_stack(expr);
                     }
+                    self.bytecode.emit_move(return_value, value.variable());
+                    self.register_allocator.dealloc(value);
                 } else {
-                    self.push_from_register(&CallFrame::undefined_register());
+                    self.bytecode
+                        .emit_move(return_value, CallFrame::undefined_register().variable());
                 }
 
                 self.r#return(true);
@@ -102,12 +102,14 @@ impl ByteCompiler<'_> {
         }
     }
 
-    pub(crate) fn r#return(&mut self, return_value_on_stack: bool) {
+    /// Emits a return. `return_value_in_register` tells that the value to return was stored in
+    /// [`ByteCompiler::return_value_register`]; otherwise the current return value is returned.
+    pub(crate) fn r#return(&mut self, return_value_in_register: bool) {
         let actions = self.return_jump_record_actions();
 
         JumpRecord::new(
             JumpRecordKind::Return {
-                return_value_on_stack,
+                return_value_in_register,
             },
             actions,
         )
